@@ -9,6 +9,7 @@ import TantivyModel.Proofs.Store.VInt32
 import TantivyModel.Model.Store.JsonNumber
 import TantivyModel.Proofs.Store.DocPath
 import TantivyModel.Proofs.Store.Framing
+import TantivyModel.Proofs.Store.WriterBound
 /-!
 # C09 — Stored documents are returned exactly as they were added
 
@@ -290,6 +291,68 @@ theorem C09_store_get_framed (R : RawCodec) (hR : RawGood R) (id P : Nat) (hP : 
     getBytes (framed R id) sf i = groups.flatten[i]? :=
   getBytes_framed R hR id P hP groups cps sf.data hl hg hsmall hne sf rfl hidx i
 
+/-- … and the blocks the writer cuts are that small: with lz4 / zstd seen as a framed abstract codec,
+`get (write docs) i = docs[i]` for every block size and document size with
+`block_size + doc_len + K + 4 < 2^32` (`K ≥ 4` bytes of index estimate per document; the code has 8).
+This is `C09_store_get` for the compressors other than `none`, frame included. -/
+theorem C09_store_get_framed_written (R : RawCodec) (hR : RawGood R) (id K P bs M : Nat) (hK : 4 ≤ K)
+    (hP : 2 ≤ P) (docs : List Bytes) (hne : docs ≠ [])
+    (hall : ∀ d ∈ docs, d ≠ [] ∧ d.length ≤ M) (hsz : bs + M + K + 4 < 4294967296) (i : Nat) :
+    getBytes (framed R id) (writtenStore (framed R id) K P bs docs) i = docs[i]? := by
+  obtain ⟨groups, hflat, hl, hg, hbd⟩ := written_laidB (framed R id) K M (by omega) bs docs
+    (fun d hd => ⟨(hall d hd).1, (hall d hd).2, by have := (hall d hd).2; omega⟩) (by omega)
+  have hgne : groups ≠ [] := by intro h; rw [h] at hflat; exact hne hflat.symm
+  have := getBytes_framed R hR id P hP groups _ _ hl hg
+    (fun g hgm => by have := blockLen_le K hK g _ (hbd g hgm); omega) hgne
+    (writtenStore (framed R id) K P bs docs) rfl rfl i
+  rw [this, hflat]
+
+/-! ### sorted index: the temporary store is re-read in the order of the doc-id mapping -/
+
+/-- `SegmentWriter::finalize` with a doc-id mapping (`sort_by_field`): documents are first written to
+a temporary store (compressor none, its own block size `tbs`), then fetched one by one with
+`get_document_bytes(old_doc_id)` in the order of the mapping and written to the final store.
+Fetching document `i` of the final store returns the document the mapping names, for every
+mapping (any permutation, and any codec / block sizes of the two stores). -/
+theorem C09_sorted_remap (C : Compression) (hC : GoodCompression C) (K P tbs bs : Nat) (hK : 1 ≤ K) (hP : 2 ≤ P)
+    (htbs : tbs < 4294967296) (hbs : bs < 4294967296) (docs : List Bytes) (hne : docs ≠ [])
+    (hall : ∀ d ∈ docs, d ≠ [] ∧ tbs + d.length < 4294967296 ∧ bs + d.length < 4294967296)
+    (order : List Nat) (hord : ∀ o ∈ order, o < docs.length) (hone : order ≠ []) :
+    let temp := writtenStore Compression.none K P tbs docs
+    ∃ picked, order.mapM (getBytes Compression.none temp) = some picked ∧
+      picked = order.map (fun o => docs[o]?.getD []) ∧
+      ∀ i, getBytes C (writtenStore C K P bs picked) i = (order[i]?).bind fun o => docs[o]? := by
+  intro temp
+  have hget : ∀ o, getBytes Compression.none temp o = docs[o]? := fun o =>
+    C09_store_get Compression.none ⟨fun _ => rfl, fun _ h => h⟩ K P tbs hK hP htbs docs hne
+      (fun d hd => ⟨(hall d hd).1, (hall d hd).2.1⟩) o
+  have hmap : ∀ (l : List Nat), (∀ o ∈ l, o < docs.length) →
+      l.mapM (getBytes Compression.none temp) = some (l.map fun o => docs[o]?.getD []) := by
+    intro l
+    induction l with
+    | nil => intro _; rfl
+    | cons o os ih =>
+      intro h
+      have ho := h o (List.mem_cons_self ..)
+      rw [List.mapM_cons, hget o, ih (fun x hx => h x (List.mem_cons_of_mem _ hx))]
+      simp [List.getElem?_eq_getElem ho]
+  refine ⟨_, hmap order hord, rfl, ?_⟩
+  intro i
+  have hp : ∀ d ∈ order.map (fun o => docs[o]?.getD []), d ≠ [] ∧ bs + d.length < 4294967296 := by
+    intro d hd
+    obtain ⟨o, ho, rfl⟩ := List.mem_map.mp hd
+    have hlt := hord o ho
+    rw [List.getElem?_eq_getElem hlt]
+    have := hall docs[o] (List.getElem_mem hlt)
+    exact ⟨this.1, this.2.2⟩
+  rw [C09_store_get C hC K P bs hK hP hbs _ (by simpa using hone) hp i]
+  simp only [List.getElem?_map]
+  cases ho : order[i]? with
+  | none => rfl
+  | some o =>
+    have hlt := hord o (List.mem_of_getElem? ho)
+    simp [List.getElem?_eq_getElem hlt]
+
 /-! ### dedicated compressor thread -/
 
 /-- `docstore_compress_dedicated_thread = true`: for every interleaving of the producer's sends and
@@ -562,5 +625,9 @@ example : (deserializeDoc (encStoredDoc ([(0, StoredValue.f64 5)].map fun fv => 
     (fun d => d.map fun fv => (fv.1, diskToMem fv.2)) = some [(0, .f64 5)] := by
   have := (C09_document_path [(0, .f64 5)] 1 (by decide) (by decide +kernel) []).2
   simpa using this
+
+/-- a descending sort of three documents through a temporary store with 16 000-byte blocks -/
+example : ([2, 1, 0] : List Nat).mapM (getBytes Compression.none (writtenStore Compression.none 8 8 16000 [[1], [2, 2], [3]]))
+    = some [[3], [2, 2], [1]] := by decide +kernel
 
 end TantivyModel.C09
